@@ -1530,6 +1530,39 @@ impl metrique_writer_core::ValueWriter for ValueWriter<'_, '_> {
         } else {
             let key = DimensionSetKey::from_iter(dimensions);
             let index = NonZero::new(self.entry.state.dimension_set_map.len() + 1).unwrap();
+            if !self.entry.is_allow_unroutable_entries
+                && !self.entry.state.dimension_set_map.contains_key(&key)
+            {
+                // the dimension values are written as string fields of this set's record, so
+                // their names must be valid and must not collide with any other field of that
+                // record
+                for &(dimension, _) in &key.entry {
+                    if !self.entry.validate_name(dimension)
+                        || self.entry.validations.skip_validate_unique
+                    {
+                        continue;
+                    }
+                    let is_unique = match self
+                        .entry
+                        .validation_map
+                        .entry(SCow(Cow::Owned(dimension.to_owned())))
+                        .or_insert_with(|| LineData {
+                            kind: LineKind::Metric {
+                                indexes: bit_set::BitSet::new(),
+                            },
+                        })
+                        .kind
+                    {
+                        LineKind::Metric { ref mut indexes } => indexes.insert(index.get()),
+                        LineKind::String | LineKind::UnfoundDimension => false,
+                    };
+                    if !is_unique {
+                        self.entry.error.extend_mut(
+                            ValidationError::invalid("duplicate field").for_field(dimension),
+                        );
+                    }
+                }
+            }
             let each_dimensions_str = self
                 .entry
                 .entry_dimensions
